@@ -700,4 +700,6 @@ def run(run: Run):
     run.floor('C14.R6', 8)
     from .common import shared_mechanisms as _shared
     _shared(run, 'C14', 12, ['stored-values', 'fresh-parse'])
+    from .common import shared_mechanisms as _shared_f
+    _shared_f(run, 'C14', 14, ['formulas'])
     return INFO
